@@ -139,3 +139,11 @@ pub fn fnv(h: &mut u64, x: u64) {
     }
 }
 pub const FNV0: u64 = 0xcbf2_9ce4_8422_2325;
+
+pub fn fnv_str(s: &str) -> u64 {
+    let mut h = FNV0;
+    for b in s.bytes() {
+        fnv(&mut h, b as u64);
+    }
+    h
+}
